@@ -9,7 +9,7 @@ SIM_NOTE = ("Trusted base: the harness (harness/src/{sim,oracle,wire,comps}.rs) 
 
 CHECKS = {
  "C01": dict(engine="sim", cat="exploration", ref="DESIGN.md 4/C01",
-   tech="runtime monitoring: random session histories x hostile network schedules, reference-model comparison of every client world with the server world at bounded quiescence; release + debug-assert lanes",
+   tech="runtime monitoring: random session histories x hostile network schedules, reference-model comparison of every client world with the server world at bounded quiescence; release + debug-assert lanes, thorough adds valgrind-memcheck and AddressSanitizer lanes",
    text="Exploration by execution: thousands of seed-determined sessions (world ops, 1..n frames per tick, per-message deliver/hold/drop/reorder, joins/leaves/restarts, all tick/visibility/auth policies) are run against the real library; after bounded quiescence every client world is compared with the harness' own record of the visible server state, and any panic inside App::update is a violation. Right level because the property quantifies over histories x schedules, which only execution of the real code under a controllable transport can sample; no proof is claimed.",
    note=SIM_NOTE + " Liveness is restated as bounded progress (16 lock-step ticks after the last change). One recorded known finding (F4, periodic change lost) is classified by a history predicate."),
  "C02": dict(engine="sim", cat="exploration", ref="DESIGN.md 4/C02",
@@ -63,7 +63,7 @@ CHECKS.update({
  "C06": dict(engine="c06", cat="exploration", ref="DESIGN.md 4/C06",
    tech="runtime monitoring with sanitizer-style oracles: hostile byte strings fed to the real server App one per frame under catch_unwind, a counting global allocator (largest / total request per message), a message-release monitor (Bytes::is_unique on retained clones), process-death detection by the driver, overflow-check (debug-assert) and release lanes, service check through a well-behaved client",
    text="Exhaustive over all byte strings of length <=2 (quick) / <=3 (thorough) per channel and sender, structure-aware generation beyond (inflated length fields, boundary entity bits, truncation, over-long varints, batches interleaved with legitimate traffic and connects/disconnects). A panic escaping App::update, an allocation request out of proportion (>= 1 MiB for <= 4 KiB of input), a message the server still holds after the frame that processed it, the same on a freshly started server whose only connections are unauthorized (flooded for 20..80 frames, then joined by a well-behaved client), a dead worker process, a server frame that does not return within 20 s (watchdog), a legitimate event queued behind the hostile bytes in the same frame that is not handled, or a well-behaved client that stops converging are violations. Both arithmetic lanes run because overflow behaviour differs between them.",
-   note=PURE_NOTE + " Exhaustiveness holds only for the short-input blocks; everything longer is sampled. Miri/valgrind lanes are auxiliary (DESIGN.md 3.6)."),
+   note=PURE_NOTE + " Exhaustiveness holds only for the short-input blocks; everything longer is sampled. Miri/valgrind/AddressSanitizer lanes: a report is a violation of C06 (DESIGN.md 3.6)."),
  "C13": dict(engine="c13+c13b", cat="exploration", ref="DESIGN.md 4/C13",
    tech="runtime monitoring: (a) client and server Apps on the repository's example backend over loopback TCP with connections closed from either side around emitting frames, per-event remote/local counters; (b) single-App state machine over {singleplayer, listen server, client connecting/connected, dedicated server} with per-event handling counters (remote sends decoded from RepliconClient::drain_sent + local observations by in-app readers/observers)",
    text="Random interleavings of status transitions and emissions (events/triggers, with/without targets, all send modes incl. SERVER); per event remote+local handlings must be exactly one on the path selected by the state at its processing frame, local sender must be SERVER, nothing may be put on the network without a connection, no panic. Over the example backend: events and triggers written in the frames around a connection close (resource removed before / inside the frame, server stopped, server dropped the connection) must be seen exactly once by the remote server while the frame ends connected and exactly once locally when it ends disconnected.",
